@@ -27,10 +27,6 @@ Lemma reachable_is_represented path ops : forallb seg_ok path = true -> forallb 
   represents (store_of path ops) (run false (empty_db path) ops).
 Proof. intros H1 H2. apply represents_run; [apply represents_empty; exact H1|exact H2]. Qed.
 
-(* a decidable form of the invariant, for concrete states *)
-Definition no_dangling_b (a : adb) : bool :=
-  forallb (fun e : dkey * str => let '(s, n, t, f) := fst e in is_some (a_decl a s n (snd e) f)) (atags a).
-
 (* ---------------------------------------------------------------- the witness state *)
 
 Definition w_L : str := lit "Linux64".
